@@ -80,14 +80,12 @@ theorem chunk_count_limit_tie (cd : Codec) (H : Bytes → Bytes) (chunks : List 
 
 /-- the 24-bit count as `ExtendedHeader::write_options` writes it (`>> 16`, `>> 8`, `as u8`). -/
 theorem count_bytes_tie (n : Nat) : beBytes 3 n = (BlteSrc.count_bytes n).map (BitVec.ofNat 8) := by
+  have hm : ∀ m : Nat, BitVec.ofNat 8 (m % 256) = BitVec.ofNat 8 m := fun m => by
+    apply BitVec.eq_of_toNat_eq; simp
+  have e16 : n / 256 / 256 = n / 2 ^ 16 := by rw [Nat.div_div_eq_div_mul]
   simp only [beBytes, leBytes, List.reverse_cons, List.reverse_nil, List.nil_append,
     List.cons_append, BlteSrc.count_bytes, List.map_cons, List.map_nil, Nat.shiftRight_eq_div_pow,
-    Nat.pow_zero, Nat.div_one]
-  have e16 : n / 256 / 256 = n / 2 ^ 16 := by rw [Nat.div_div_eq_div_mul]
-  have e8 : n / 256 = n / 2 ^ 8 := rfl
-  rw [e16, e8]
-  refine congrArg₂ _ ?_ (congrArg₂ _ ?_ (congrArg₂ _ ?_ rfl)) <;>
-    (apply BitVec.eq_of_toNat_eq; simp)
+    Nat.pow_zero, Nat.div_one, hm, e16]
 
 /-- the 24-bit count as the reader assembles it (`u32::from_be_bytes([0, x[0], x[1], x[2]])`). -/
 theorem count_read_tie (a b c : Byte) :
@@ -115,7 +113,8 @@ theorem table_flag_read_tie (h0 h1 h2 h3 fl c0 c1 c2 : Byte) (rest : Bytes)
     intro he; subst he; simp [BlteSrc.from_byte_accepts] at hfl
   have h2' : fl ≠ 0x10 := by
     intro he; subst he; simp [BlteSrc.from_byte_accepts] at hfl
-  simp [parse, magic, hnz, h1', h2']
+  simp only [magic, List.cons_append, List.nil_append, parse, ne_eq, not_true_eq_false, if_false,
+    hnz, h1', h2', not_false_eq_true, and_self, if_true]
 
 /-- rows are `chunk_info_size` bytes long on the wire. -/
 theorem row_size_tie (r : Row) (x : XRow) (h : r.checksum.length = 16)
@@ -150,7 +149,8 @@ theorem enc_header_tie (data : Bytes) (spec : EncSpec) (key : Bytes) (idx : Nat)
     · rw [h1]; decide
     · by_cases h2 : spec.etype = 0x41
       · rw [h2]; decide
-      · simp [h1, h2] at hc
+      · simp only [h1, h2, if_false] at hc
+        cases hc
   · cases h
 
 end Cascette.Proofs.BlteTie
